@@ -149,6 +149,23 @@ def _region_cases(pool, region):
     return cases
 
 
+def _corridor_cases(corridors):
+    """every path configuration (coordinate tokenizers rotated over them) on corridor mazes; the fork-to-fork step size sees one or two
+    very long steps there, the single-step size hundreds of steps"""
+    def cases(shard, nshards):
+        k = 0
+        for part in PATHS:
+            for j, mz in enumerate(corridors):
+                k += 1
+                if k % nshards != shard:
+                    continue
+                if part["step_size"] == "singles" and (k // nshards) % 6:
+                    continue
+                yield {"params": {"seq": "AOTP" if k % 3 else "AOP", "coord": COORDS[k % len(COORDS)], "adj": DEFAULT_ADJ, "path": part, **({"target": {"post": k % 2 == 0}} if k % 3 else {})}, "maze": mz}
+
+    return cases
+
+
 # ---- full configurations -------------------------------------------------------------------
 
 AXES = {
@@ -229,10 +246,19 @@ def subs(tier: str):
     # one-cell and two-cell solutions (start == end; a single step) for every path tokenizer
     short = [{"g": pool[4]["g"], "sol": pool[4]["sol"][:1], "kind": "solved"}, {"g": pool[6]["g"], "sol": pool[6]["sol"][:2], "kind": "solved"}]
     pool_path = pool_path + short
+    # long fork-free stretches: one step of the fork-to-fork step size then spans a hundred and more moves (the vocabulary provides
+    # distances up to 255), here along a corridor snaking through the whole grid, entered at either end or somewhere inside
+    from mzverif.props.C05 import _serpentine
+
+    corridors = []
+    for n, length, start in ([(12, 144, 0), (16, 256, 0), (12, 131, 7)] if q else [(12, 144, 0), (12, 131, 7), (16, 256, 0), (16, 129, 100), (14, 196, 0), (20, 256, 57), (50, 256, 1200)]):
+        g_, sol_ = _serpentine(n, length, start)
+        corridors.append({"g": g_, "sol": sol_ if len(corridors) % 2 == 0 else sol_[::-1], "kind": "solved"})
     tuples, total_pairs = pairwise_set(0)
     return [
         Sub("adjacency-region-exhaustive", check, "exhaustive", cases=_region_cases(pool_adj, "adj"), exhaustive_flag=True),
         Sub("path-region-exhaustive", check, "exhaustive", cases=_region_cases(pool_path, "path"), exhaustive_flag=True),
+        Sub("long-corridors", check, "exhaustive", cases=_corridor_cases(corridors)),
         Sub(f"pairwise-covering-{len(tuples)}-tuples-{total_pairs}-pairs", check, "exhaustive", cases=_pairwise_cases(pool), exhaustive_flag=False),
         Sub("uniform-full-configurations", check, "hypothesis", strategy=lambda: _uniform(8 if q else 14), examples=40 if q else 1500),
     ]
